@@ -43,6 +43,7 @@ class State:
         self.pc = []
         self.written = set()
         self.written_locals = set()
+        self.written_at = {}      # heap key -> list of ref terms written
         self.log = []
         self.ghost = False        # inside spec / contract evaluation: no safety obligations
         self.pure = False         # boolean operators build terms instead of branching
@@ -62,6 +63,7 @@ class State:
         s.pc = list(self.pc)
         s.written = set(self.written)
         s.written_locals = set(self.written_locals)
+        s.written_at = {k: list(v) for k, v in self.written_at.items()}
         s.log = list(self.log)
         s.ghost = self.ghost
         s.pure = self.pure
